@@ -300,7 +300,7 @@ PROPS['C15'] = {
     'quick_configs': ['default', 'noalloc'],
     'thorough_configs': ALL,
     'controls': ['N1', 'N8'],
-    'floors': {'default': {'N1': 6, 'N3.chars': 1, 'N3.len': 1, 'N6': 1, 'N5': 2, 'N2': 60, 'N5b': 1, 'N7': 1, 'N5c': 1, 'N9': 3, 'N9.pair': 3, 'N5d': 2}},
+    'floors': {'default': {'N1': 6, 'N3.chars': 1, 'N3.len': 1, 'N6': 1, 'N5': 2, 'N2': 60, 'N5b': 1, 'N7': 1, 'N5c': 1, 'N9': 3, 'N9.pair': 3, 'N5d': 2, 'N5f': 1}},
     'rule_text': 'obligations: one per instance of create_file/create_dir/rename (two-state protocol: no unguarded device '
                  'write before a name validator\'s Ok edge), the accepted-character table over all 0x110000 code points, '
                  'the length table over all usize lengths, the accepted long-name sequence numbers, the buffer capacity '
@@ -422,7 +422,7 @@ PROPS['C16'] = {
     'quick_configs': ['default'],
     'thorough_configs': ALL,
     'controls': [],
-    'floors': {'default': {'S1': 1, 'S2.checksum': 1, 'S3.rescan': 1, 'S3.plain': 1, 'S3.chk': 1, 'S3.all': 1}},
+    'floors': {'default': {'S1': 1, 'S2.checksum': 1, 'S3.rescan': 1, 'S3.plain': 1, 'S3.chk': 1, 'S3.all': 1, 'S3.step': 1}},
     'rule_text': 'obligations: the character-mapping decision table over all 0x110000 code points, the checksum data '
                  'path (three links), the rescan-per-retry condition, the bookkeeping call and the 8-case table of the '
                  'plain-form decision; non-trivial = partition walk, path query or dependence query',
@@ -641,7 +641,8 @@ ADDENDA = {
     'C11': ' W1/W4 are taken over from C20 (no 32-bit overflow in the offset arithmetic; biased cluster bounds).',
     'C15': ' N5b: equality is reported only after both sequences are exhausted. N7: the number of long-name slots is the '
            'length divided by 13 rounded up.',
-    'C16': ' S3.chk: a checksum-form entry blocks a numeric tail only if its checksum digits equal the generator\'s.',
+    'C16': ' S3.chk: a checksum-form entry blocks a numeric tail only if its checksum digits equal the generator\'s. '
+           'S3.step: the next checksum tried derives from the current checksum and constants alone.',
     'C18': ' R18.3 requires the stamp on every path of the entry arm. R18.6: the DOS date / time words are cut at the bit '
            'positions of the specification (shift / mask pairs of decode, shifts of encode).',
     'C19': ' R19.3 also requires set_len / len of the fixed buffer to be the identity (as Vec\'s are); T2n is evaluated in '
